@@ -435,11 +435,18 @@ def check(ctx):
         ctx.check(ok, "C10.R7", f"{om.qualname}:mock-filter", mc, "on the error path validators are not filtered by `dependencies.isdisjoint(<invalid fields>)`: a validator reads a field that failed (AttributeError on the mock) or a valid one is skipped", om, mc, detail="[v for v in validators if v.dependencies.isdisjoint(invalid_fields)]")
         inv = [a for a in ast.walk(omn) if isinstance(a, ast.Assign) and sname and norm(a.targets[0]) == sname]
         aug = [a for a in ast.walk(omn) if isinstance(a, ast.AugAssign) and sname and norm(a.target) == sname]
-        txt = " ; ".join(norm(a.value) for a in inv)
-        cond_ok = any("field_errors.keys()" in norm(a.value) and sname in norm(a.value) and isinstance(a.value, ast.BinOp) and isinstance(a.value.op, ast.BitOr) for a in inv)
-        ctx.check("self.post_init_modified" in txt and cond_ok and not aug, "C10.R7", f"{om.qualname}:invalid-fields", (aug or inv or [omn.body[0]])[0],
-                  "the set of invalid fields is not post_init_modified united (into a new set) with the keys of field_errors" + (": the in-place update mutates the node's own post_init_modified, so failed fields accumulate across calls" if aug else ""),
-                  om, (aug or inv or [omn])[0], detail="post_init_modified | field_errors.keys()")
+        first = min(inv, key=lambda a: a.lineno) if inv else None
+        # (a) a new set (never the node's own post_init_modified object, which an in-place update would corrupt for later calls)
+        fresh = first is not None and isinstance(first.value, ast.BinOp) and isinstance(first.value.op, ast.BitOr) and "self.post_init_modified" in norm(first.value)
+        ctx.check(fresh and all(a.lineno > first.lineno for a in aug), "C10.R7", f"{om.qualname}:invalid-fields", (first or omn.body[0]),
+                  "the set of invalid fields is not built as a new set from post_init_modified: an in-place update mutates the node's own post_init_modified, so failed fields accumulate across calls", om, first or omn, detail="self.post_init_modified | {...}")
+        # (b) it is made of field *names* (what validator dependencies are), for the fields whose alias has an error
+        txt = " ; ".join(norm(a.value) for a in inv) + " ; " + " ; ".join(norm(a.value) for a in aug)
+        names_ok = any(isinstance(c_, ast.SetComp) and norm(c_.elt).endswith(".name") and norm(c_.generators[0].iter) == "self.fields" and any(norm(i_).endswith(".alias in field_errors") or ".alias in field_errors" in norm(i_) for i_ in c_.generators[0].ifs) for a in inv + aug for c_ in ast.walk(a.value))
+        ctx.check(names_ok and "field_errors.keys()" not in txt, "C10.R7", f"{om.qualname}:invalid-names", (first or omn.body[0]),
+                  "validators are filtered with error keys (aliases, or nested keys of a flattened object) although their dependencies are field names: with an alias different from the name a validator depending on the failed field runs on the mock (NonTrivialDependency / default value)", om, first or omn, detail="{field.name for field in self.fields if field.alias in field_errors}")
+        agg_ok = any("not in values" in norm(a.value) and ".name" in norm(a.value) for a in inv + aug)
+        ctx.check(agg_ok, "C10.R7", f"{om.qualname}:invalid-aggregates", (first or omn.body[0]), "aggregate fields (flattened / pattern / additional) that failed are not counted as invalid", om, first or omn, detail="aggregate field names absent from values")
         for c, nm in ((mc, "mock"), (rc, "real")):
             kws = {k.arg: norm(k.value) for k in c.keywords}
             third = norm(c.args[2]) if len(c.args) > 2 else kws.get("kwargs")
@@ -568,13 +575,12 @@ def mutants(mb):
     mb.add_text("continuation-drops-kwargs", V, "                validate(obj, next_validators, kwargs, aliaser=aliaser)\n", "                validate(obj, next_validators, aliaser=aliaser)\n", "C10.R6", "continuation-args")
     mb.add_text("error-not-accumulated", V, "        error = merge_errors(error, err)\n", "        error = err\n", "C10.R", "")
     mb.add_text("object-mock-run-dropped", M, "                try:\n                    validate(\n                        ValidatorMock(self.constructor.cls, values),\n                        [\n                            v\n                            for v in validators\n                            if v.dependencies.isdisjoint(invalid_fields)\n                        ],\n                        init,\n                        aliaser=self.aliaser,\n                    )\n                except ValidationError as err:\n                    error = merge_errors(error, err)\n                raise error", "                raise error", "C10.R7", "mock-run")
-    mb.add_text("object-invalid-fields-forgotten", M, "                if field_errors:\n                    invalid_fields = invalid_fields | field_errors.keys()\n", "", "C10.R7", "invalid-fields")
+    mb.add_text("object-invalid-fields-aliases", M, "                invalid_fields = self.post_init_modified | {\n                    field.name\n                    for field in self.fields\n                    if field_errors and field.alias in field_errors\n                }\n", "                invalid_fields = self.post_init_modified | (field_errors or {}).keys()\n", "C10.R7", "invalid-names")
+    mb.add_text("object-invalid-fields-inplace", M, "                invalid_fields = self.post_init_modified | {\n                    field.name\n                    for field in self.fields\n                    if field_errors and field.alias in field_errors\n                }\n", "                invalid_fields = self.post_init_modified\n                invalid_fields |= {\n                    field.name\n                    for field in self.fields\n                    if field_errors and field.alias in field_errors\n                }\n", "C10.R7", "invalid-fields")
     mb.add_text("object-init-from-default-when-failed", M, "                    elif not field_errors or name not in field_errors:", "                    elif not field_errors or name in field_errors:", "C10.R7", "init-from-default")
     mb.add_text("object-init-guard-flipped", M, "                    if name in values:\n                        init[name] = values[name]", "                    if name not in values:\n                        init[name] = values[name]", "C10.R7", "init-from-data")
     mb.add_text("object-selection-inverted", M, "                v for v in self.validators if not v.dependencies.isdisjoint(aliases)", "                v for v in self.validators if v.dependencies.isdisjoint(aliases)", "C10.R7", "selection")
     mb.add_text("object-real-run-no-init", M, "            return validate(obj, validators, init, aliaser=self.aliaser)", "            return validate(obj, validators, aliaser=self.aliaser)", "C10.R7", "real-args")
-    mb.add_text("neg-invalid-fields-renamed", M, "                invalid_fields = self.post_init_modified\n                if field_errors:\n                    invalid_fields = invalid_fields | field_errors.keys()\n                try:\n                    validate(\n                        ValidatorMock(self.constructor.cls, values),\n                        [\n                            v\n                            for v in validators\n                            if v.dependencies.isdisjoint(invalid_fields)\n",
-                "                failed = self.post_init_modified\n                if field_errors:\n                    failed = failed | field_errors.keys()\n                try:\n                    validate(\n                        ValidatorMock(self.constructor.cls, values),\n                        [\n                            v\n                            for v in validators\n                            if v.dependencies.isdisjoint(failed)\n", negative=True)
     mb.add_text("type-validators-not-merged", "apischema/deserialization/__init__.py", "            factory = factory.merge(get_constraints(get_schema(tp)), get_validators(tp))\n", "            factory = factory.merge(get_constraints(get_schema(tp)), ())\n", "C10.R8", "validators:type")
     mb.add_text("field-validators-not-merged", "apischema/deserialization/__init__.py", "                get_constraints(f.schema), f.validators\n", "                get_constraints(f.schema), ()\n", "C10.R8", "validators:field")
     mb.add_text("decorator-drops-discard", V, "        return lambda func: validator(func, field=field, discard=discard, owner=owner)  # type: ignore", "        return lambda func: validator(func, field=field, owner=owner)  # type: ignore", "C10.R9", "deferred")
